@@ -171,6 +171,10 @@ macro_rules! pair {
         if a.partial_cmp(&b) != Some(a.cmp(&b)) {
             return "partial-cmp-differs".to_string();
         }
+        // the value hashes as its original string does
+        if h(&a) != h(&a.as_str().to_string()) || h(&b) != h(&b.as_str().to_string()) {
+            return "hash-differs-from-the-hash-of-the-original-string".to_string();
+        }
         // every spelling of the equality question agrees with ==
         #[allow(clippy::nonminimal_bool)]
         let spellings = [!(a != b), !(b != a), vec![a.clone()] == vec![b.clone()], Some(a.clone()) == Some(b.clone()), (a.clone(), 1u8) == (b.clone(), 1u8), !(a < b) && !(a > b), a <= b && a >= b];
